@@ -9,7 +9,13 @@ the state the model reports (which handles are held, their classes and values). 
 makes the model fault (use of a handle the program no longer holds, wrong class) is dropped,
 except for a small share kept on purpose as the final operation of a program, where model and
 harness must both refuse.  The generator therefore needs no second implementation of the
-semantics in Python; if no model executable exists a fixed list of programs is used."""
+semantics in Python; if no model executable exists a fixed list of programs is used.
+
+The pcre library is an oracle (class ReTable): for every (pattern, flag word) of the generators the
+harness's `calib` operation reports, from straight pcre_compile / pcre_exec calls, how many blocks
+the compiled pattern occupies and which of the harness's probe subjects it matches; each case line
+carries the entries its program can reach.  The read-back of a regexp OBJECT includes what the object
+matches, so a copy (or a re-flagged object) whose compiled program does not belong to its value shows."""
 import os, re, subprocess
 import vlib
 
@@ -60,9 +66,12 @@ def hxs(s):
 
 # ---------------------------------------------------------------------------------------------
 # the pcre oracle: blocks pcre_compile leaves allocated for (pattern, flag bits)
-RE_PATTERNS = ['a', 'ab', 'a|b', '[a-z]+x', 'a(b', 'a(', '-']        # '-' is the empty pattern in hex notation
-RE_FLAGSTR = ['', 'i', 'ms', 'x', 'iu', '^', 'q']               # q: unknown letter (warning, no bit)
+# patterns: besides the plain ones, one per compile flag that DECIDES a probe subject of the harness
+# ('^b' multiline, 'a.b' dotall, 'a b' extended, '^.$' utf8; caseless decides most of them)
+RE_PATTERNS = ['a', 'ab', 'a|b', '[a-z]+x', 'a(b', 'a(', '-', '^b', 'a.b', 'a b', '^.$']   # '-' is the empty pattern in hex notation
+RE_FLAGSTR = ['', 'i', 'm', 's', 'x', 'ms', 'iu', 'imsx', '8', '^', 'q']      # q: unknown letter (warning, no bit)
 FLAG_BITS = {'i': 1, 'm': 2, 's': 4, 'x': 8, 'u': 512, '8': 2048, '^': 128, '$': 256, 'E': 1024}
+NPROBE = 12
 
 
 def flag_bits(fs):
@@ -72,8 +81,48 @@ def flag_bits(fs):
     return v
 
 
+class ReTable:
+    """the pcre oracle: (pattern hex, flag bits) -> (blocks pcre_compile leaves allocated, what the compiled
+    pattern matches among the harness's probe subjects).  A case line carries only the entries its own
+    operations can reach: its patterns x (its flag words and 0)."""
+
+    def __init__(self, d):
+        self.d = d
+
+    @staticmethod
+    def scan(op, pats, flags):
+        t = op.split(' ')
+        if t[0] == 're' and len(t) == 2 and t[1] != 'N':
+            pats.add(t[1])
+        elif t[0] == 'flags' and len(t) == 3:
+            flags.add(flag_bits(bytes.fromhex(t[2]).decode('latin-1') if t[2] != '-' else ''))
+
+    def entries(self, pats, flags):
+        if not pats:
+            return 're=-'
+        out = []
+        for p in sorted(pats):
+            for f in sorted(flags | {0}):
+                n, sig = self.d[(p, f)]
+                out.append('%s:%d:%d:%s' % (p, f, n, sig))
+        return 're=' + ','.join(out)
+
+    def oracle(self, ops):
+        pats, flags = set(), set()
+        for op in ops:
+            self.scan(op, pats, flags)
+        return self.entries(pats, flags)
+
+
+def finalize(case, table):
+    """replace the oracle word of a case line by the table entries the program needs"""
+    kind, _, rest = case.split(' ', 2)
+    return '%s %s %s' % (kind, table.oracle(ops_of(case)), rest)
+
+
 def calibrate(exe):
-    """run the harness's `calib` operation for every (pattern, flags) the generators use"""
+    """run the harness's `calib` operation (straight pcre_compile / pcre_exec) for every (pattern, flags)
+    the generators use"""
     combos = []
     pats = [hxs(p) if p != '-' else '-' for p in RE_PATTERNS]
     for p in pats:
@@ -88,13 +137,13 @@ def calibrate(exe):
             f.write('calib re=- ; calib %s %d\n' % (p, fl))
     res, det = vlib.run_cases(exe, path, len(combos))
     os.remove(path)
-    table = []
+    table = {}
     for (p, fl), r in zip(combos, res):
-        m = re.match(r'^(-?\d+)/', r or '')
+        m = re.match(r'^(-?\d+):([01]{%d})/' % NPROBE, r or '')
         if not m:
             raise RuntimeError('pcre calibration failed on %s/%d: %r' % (p, fl, r))
-        table.append((p, fl, int(m.group(1))))
-    return 're=' + ','.join('%s:%d:%d' % e for e in table)
+        table[(p, fl)] = (int(m.group(1)), m.group(2))
+    return ReTable(table)
 
 
 # ---------------------------------------------------------------------------------------------
@@ -156,7 +205,12 @@ class P:
             while j < len(self.s) and self.s[j].isdigit():
                 j += 1
             f = int(self.s[self.i:j]); self.i = j
-            return ('r', t, f)
+            self.eat(':')
+            j = self.i
+            while j < len(self.s) and self.s[j] in '01X':
+                j += 1
+            sig = self.s[self.i:j]; self.i = j
+            return ('r', t, f, sig)
         if c == 'r' and self.s.startswith('raw', self.i):
             self.i += 3
             return ('raw',)
@@ -257,6 +311,9 @@ class Proposer:
         objs = self.handles(st, lambda o: kind(o) not in ('raw',))
         keys = [h for h in objs if not (self.avoid_addr and addr_dep(st[h]))]
         pairs = self.handles(st, lambda o: kind(o) == 'p')
+        # complete pairs (key and value present) are what the pair form of map set accepts
+        fullpairs = [h for h in pairs if st[h][1] is not None and st[h][2] is not None
+                     and not (self.avoid_addr and addr_dep(st[h][1]))]
         toks = self.handles(st, lambda o: kind(o) == 't')
         urls = self.handles(st, lambda o: kind(o) == 'U')
         res = self.handles(st, lambda o: kind(o) == 'r')
@@ -311,7 +368,19 @@ class Proposer:
         if maps and keys:
             add(6 if th == 'map' else 4, lambda: 'mset %d %d %d' % (self.pick(maps), self.pick(keys), self.pick(objs)))
             add(2, lambda: 'mremove %d %d' % (self.pick(maps), self.pick(keys)))
+            # the map's own stored value / entry handed back to set
+            add(1.2, lambda: '%s %d %d' % (self.pick(['msetown', 'msetownp']), self.pick(maps), self.pick(keys)))
+        if maps and fullpairs:
+            # pair form SPIF_MAP_SET(map, pair, NULL)
+            add(5 if th == 'map' else 3, lambda: 'msetp %d %d' % (self.pick(maps), self.pick(fullpairs)))
+        elif maps and pairs:
+            add(0.3, lambda: 'msetp %d %d' % (self.pick(maps), self.pick(pairs)))     # incomplete pair: refused
+        if maps and txt and th in ('map', 'own'):
+            # make a complete pair for the pair form
+            add(2, lambda: 'pair %d %d' % (self.pick(txt), self.pick(objs)))
             add(2, lambda: '%s %d %s' % (self.pick(['mkeys', 'mvalues', 'mpairs']), self.pick(maps), self.pick(lists + ['_', '_'])))
+        if conts and keys:
+            add(1.5, lambda: 'query %d %d' % (self.pick(conts), self.pick(keys)))
         if conts:
             add(0.8, lambda: 'toarray %d' % self.pick(lists + vecs) if (lists + vecs) else 'iter %d' % self.pick(conts))
             add(0.8, lambda: 'iter %d' % self.pick(conts))
@@ -342,25 +411,37 @@ def run_model_lines(exe, lines, tag):
     return res
 
 
-def grow(rng, oracle, specs, rounds, misuse_share=0.03, avoid_addr=False):
-    """specs: list of (kind word, theme, prefix ops list, target length).  Returns case lines
-    (each ending with `dumpall ; delall`)."""
+def grow(rng, table, specs, rounds, misuse_share=0.03, avoid_addr=False):
+    """specs: list of (kind word, theme, prefix ops list, target length); table: the ReTable.  Returns
+    case lines (each ending with `dumpall ; delall`)."""
     exe = model_path()
     if exe is None:
         return list(FALLBACK)
     progs = []
     for (word, theme, prefix, target) in specs:
-        progs.append(dict(word=word, prop=Proposer(rng, theme, avoid_addr), ops=list(prefix), target=target, done=False, final=None))
+        pr = dict(word=word, prop=Proposer(rng, theme, avoid_addr), ops=list(prefix), target=target, done=False, final=None,
+                  pats=set(), flags=set())
+        for op in pr['ops']:
+            table.scan(op, pr['pats'], pr['flags'])
+        progs.append(pr)
+
+    def oracle_of(p, extra=None):
+        pats, flags = p['pats'], p['flags']
+        if extra and extra.split(' ')[0] in ('re', 'flags'):
+            pats, flags = set(pats), set(flags)
+            table.scan(extra, pats, flags)
+        return table.entries(pats, flags)
 
     def line(p, extra=None, tail=True):
         ops = p['ops'] + ([extra] if extra else [])
-        return '%s %s ; %s' % (p['word'], oracle, ' ; '.join(ops + (['dumpall'] if tail else [])))
+        return '%s %s ; %s' % (p['word'], oracle_of(p, extra), ' ; '.join(ops + (['dumpall'] if tail else [])))
     # initial states
     outs = run_model_lines(exe, [line(p) for p in progs], 'g0')
     states = []
     for p, o in zip(progs, outs):
         if o is None or 'FAULT' in o or o.startswith('DRIVER-ERROR'):
             p['ops'] = []
+            p['pats'], p['flags'] = set(), set()
             states.append({})
         else:
             states.append(parse_dumpall(o.split(' ')[-1]))
@@ -385,19 +466,20 @@ def grow(rng, oracle, specs, rounds, misuse_share=0.03, avoid_addr=False):
                 # held, or a wrong class at top level (not a class mismatch met deep inside a
                 # comparison, which in C is silent type confusion)
                 name = cands[i].split(' ')[0]
-                shallow = 'Use_after_free' in o or name not in ('linsert', 'lremove', 'vinsert', 'vremove', 'mset', 'mremove', 'comp')
+                shallow = 'Use_after_free' in o or name not in ('linsert', 'lremove', 'vinsert', 'vremove', 'mset', 'msetp', 'msetown', 'msetownp', 'mremove', 'comp', 'query')
                 if shallow and rng.random() < misuse_share:
                     p['final'] = cands[i]
                     p['done'] = True
                 continue
             p['ops'].append(cands[i])
+            table.scan(cands[i], p['pats'], p['flags'])
             states[i] = parse_dumpall(o.split(' ')[-1])
     cases = []
     for p in progs:
         if p['final']:
-            cases.append('%s %s ; %s' % (p['word'], oracle, ' ; '.join(p['ops'] + [p['final']])))
+            cases.append('%s %s ; %s' % (p['word'], oracle_of(p, p['final']), ' ; '.join(p['ops'] + [p['final']])))
         elif p['ops']:
-            cases.append('%s %s ; %s' % (p['word'], oracle, ' ; '.join(p['ops'] + ['dumpall', 'delall'])))
+            cases.append('%s %s ; %s' % (p['word'], oracle_of(p), ' ; '.join(p['ops'] + ['dumpall', 'delall'])))
     return cases
 
 
@@ -427,6 +509,15 @@ def class_states():
           ('re-a', ['re 61']),
           ('re-flags', ['re 61', 'flags 0 69']),
           ('re-bad', ['re 6128']),
+          # one per compile flag, with a pattern for which the flag decides what the object matches
+          ('re-caseless', ['re ' + hxs('[a-z]+x'), 'flags 0 ' + hxs('i')]),
+          ('re-multiline', ['re ' + hxs('^b'), 'flags 0 ' + hxs('m')]),
+          ('re-dotall', ['re ' + hxs('a.b'), 'flags 0 ' + hxs('s')]),
+          ('re-extended', ['re ' + hxs('a b'), 'flags 0 ' + hxs('x')]),
+          ('re-utf8', ['re ' + hxs('^.$'), 'flags 0 ' + hxs('8')]),
+          ('re-all', ['re ' + hxs('a.b'), 'flags 0 ' + hxs('imsx')]),
+          ('re-flags-then-none', ['re ' + hxs('a b'), 'flags 0 ' + hxs('x'), 'flags 0 -']),
+          ('re-badflag', ['re 61', 'flags 0 ' + hxs('^')]),
           ]
     for c in 'ald':
         S += [('L%s-empty' % c, ['cont L %s' % c]),
@@ -441,6 +532,8 @@ def class_states():
               ('V%s-three' % c, ['cont V %s' % c, 'str 62', 'vinsert 0 1', 'str 61', 'vinsert 0 2', 'str 63', 'vinsert 0 3']),
               ('M%s-empty' % c, ['cont M %s' % c]),
               ('M%s-one' % c, ['cont M %s' % c, 'str 6b', 'str 76', 'mset 0 1 2', 'del 1', 'del 2']),
+              ('M%s-pairform' % c, ['cont M %s' % c, 'str 6b', 'str 76', 'pair 1 2', 'msetp 0 3', 'del 1', 'del 2', 'del 3',
+                                    'str 6a', 'str 77', 'pair 4 5', 'msetp 0 6', 'del 4', 'del 5', 'del 6']),
               ('M%s-three' % c, ['cont M %s' % c, 'str 6b32', 'str 76', 'mset 0 1 2', 'str 6b31', 'mset 0 3 2', 'str 6b33', 'mset 0 4 1',
                                  'del 1', 'del 2', 'del 3', 'del 4']),
               ]
@@ -457,8 +550,8 @@ def renumber(ops, base):
                 'append': [1], 'substr': [1], 'setk': [1, 2], 'setv': [1, 2], 'eval': [1], 'setsrc': [1, 2], 'setsep': [1, 2],
                 'urlset': [1, 3], 'unparse': [1], 'flags': [1], 'compile': [1], 'lappend': [1, 2], 'lprepend': [1, 2],
                 'linsert': [1, 2], 'linsert_at': [1, 2], 'lremove': [1, 2], 'lremove_at': [1], 'lreverse': [1], 'vinsert': [1, 2],
-                'vremove': [1, 2], 'mset': [1, 2, 3], 'mremove': [1, 2], 'mkeys': [1, 2], 'mvalues': [1, 2], 'mpairs': [1, 2],
-                'toarray': [1], 'iter': [1]}.get(name, [])
+                'vremove': [1, 2], 'mset': [1, 2, 3], 'msetp': [1, 2], 'msetown': [1, 2], 'msetownp': [1, 2], 'mremove': [1, 2], 'mkeys': [1, 2], 'mvalues': [1, 2], 'mpairs': [1, 2],
+                'toarray': [1], 'iter': [1], 'query': [1, 2]}.get(name, [])
         for i in hpos:
             if t[i] != '_':
                 t[i] = str(int(t[i]) + base)
